@@ -152,7 +152,12 @@ def argv_for(job, inpath, outpath, configs, cfgdir):
 
 def input_path(samples, indir, content, iext):
   """The sample of format `content` under a name with extension `iext` (as written, '' = no extension)."""
-  path = os.path.join(indir, "in_%s%s" % (content, iext))
+  if iext.startswith("/"):
+    # a file whose whole name is iext[1:] (no dot in it): one directory per format keeps the names apart
+    os.makedirs(os.path.join(indir, "named_" + content), exist_ok=True)
+    path = os.path.join(indir, "named_" + content, iext[1:])
+  else:
+    path = os.path.join(indir, "in_%s%s" % (content, iext))
   if not os.path.exists(path):
     shutil.copyfile(samples[content], path)
   return path
